@@ -436,6 +436,27 @@ def r5_noop(ctx, F):
     if ok:
         names, tab = bool_fn_table(f, {'borrowed': ba, 'empty': call_atom(f, emp[0])})
         ok = all(tab[c] == ({True} if all(c) else {False}) for c in tab)
+    elif bsws and not emp:
+        # "no commands" as a length test: `out.0.len() == 0` or the slice pattern `[]`
+        flens = f.calls_to('Vec::len')
+
+        def is_len(v):
+            v = noref(v)
+            return (v.kind == 'call' and f.call_at(v.key) in flens) or (v.kind == 'un' and v.key[0] == 'PtrMetadata')
+        zero = [x for x in comparisons(f) if x[2] in ('eq', 'ne') and any(is_len(v) for v in x[:2]) and
+                any(noref(v).kind == 'const' and noref(v).key == 0 for v in x[:2])]
+        if len(zero) == 1:
+            x0 = zero[0]
+            zsw = [sw for sw in f.switches if sw.bb == x0[5]]
+
+            def zero_cons(val):
+                want = x0[3] if (x0[2] == 'eq') == val else x0[4]
+                labs = set(l for sw in zsw for (l, t) in sw.edges if (sw.bb, t) in want)
+                return [(zsw, lab) for lab in labs][:1]
+            names, tab = bool_fn_table(f, {'borrowed': ba, 'empty': (zero_cons, lambda v: v.kind == 'bin' and
+                                                                       f.switch_at(x0[5]) is not None and
+                                                                       v == f.switch_at(x0[5]).on)})
+            ok = all(tab[c] == ({True} if all(c) else {False}) for c in tab)
     ctx.check(ok, rule, 'is_no_op-definition', f,
               good='is_no_op = state still Borrowed AND no commands',
               bad='is_no_op is not "state Borrowed and output empty": a step that changes state or emits '
@@ -506,6 +527,25 @@ def r6_primitives(ctx, F):
         b = F.body('actor::Out::<A>::%s' % name)
         ctx.touched(b)
         pushes = b.calls_to('Vec::push')
+        if not pushes and name == 'remove_random':
+            # delegation: `self.choose_random(key, Vec::new())` - the sibling (judged above) records the command
+            dl = [c for c in b.calls if c.short.endswith('Out::choose_random') or
+                  (c.callee or '').endswith('::choose_random')]
+            okd = len(dl) == 1 and not b.in_cycle(dl[0].bb) and len(dl[0].args) == 3 and \
+                not any(x in b.reach([0], cut_blocks=[dl[0].bb]) for x in b.returns)
+            if okd:
+                a0 = noref(b.trace(b.val(dl[0].args[0]), ('DerefMut::deref_mut',)))
+                a1 = noref(b.trace(b.val(dl[0].args[1]), ('Into::into', 'From::from')))
+                a2 = noref(b.val(dl[0].args[2]))
+                c2 = b.call_at(a2.key) if a2.kind == 'call' else None
+                okd = a0.kind == 'arg' and a0.key == 1 and a1 == V('arg', 2) and \
+                    (c2 is not None and c2.is_('Vec::new', 'Default::default', 'Vec::with_capacity') or a2.kind == 'agg')
+            if dl:
+                ctx.check(okd, rule, 'Out::%s' % name, b,
+                          good='Out::remove_random is choose_random(key, no choices)',
+                          bad='actor::Out::remove_random does not hand its key and an empty list of choices to '
+                              'choose_random')
+                continue
         ok = len(pushes) == 1 and not b.in_cycle(pushes[0].bb)
         detail = ''
         if ok and any(x in b.reach([0], cut_blocks=[pushes[0].bb]) for x in b.returns):
@@ -599,7 +639,7 @@ def r6_primitives(ctx, F):
               bad='actor::Out::broadcast does not send exactly one message to every recipient')
     # Timers / RandomChoices
     prim = [('actor::timers::Timers::<T>::set', ('HashSet::insert', 'HashableHashSet::insert'), 2),
-            ('actor::timers::Timers::<T>::cancel', ('HashSet::remove', 'HashableHashSet::remove'), 2),
+            ('actor::timers::Timers::<T>::cancel', ('HashSet::remove', 'HashableHashSet::remove', 'HashSet::take'), 2),
             ('actor::timers::Timers::<T>::cancel_all', ('HashSet::clear', 'HashableHashSet::clear'), None),
             ('actor::model_state::RandomChoices::<Random>::insert', ('HashMap::insert', 'HashableHashMap::insert'), 2),
             ('actor::model_state::RandomChoices::<Random>::remove', ('HashMap::remove', 'HashableHashMap::remove'), 2)]
